@@ -32,12 +32,22 @@ type VerifLoaderCall struct {
 type verifRecLoader struct {
 	calls []VerifLoaderCall
 	inner shardLoader // optional: forward to a real loader
+
+	// beforeLoad / afterLoad run inside scan's call of loader.load, before resp. after the shards were opened and
+	// published: the place where an indexer's rename lands "during a scan".
+	beforeLoad, afterLoad func(keys []string)
 }
 
 func (l *verifRecLoader) load(keys ...string) {
 	l.calls = append(l.calls, VerifLoaderCall{Op: "load", Keys: append([]string(nil), keys...)})
+	if l.beforeLoad != nil {
+		l.beforeLoad(keys)
+	}
 	if l.inner != nil {
 		l.inner.load(keys...)
+	}
+	if l.afterLoad != nil {
+		l.afterLoad(keys)
 	}
 }
 
@@ -72,6 +82,12 @@ func VerifNewScanner(dir string, ss *VerifSharded) *VerifScanner {
 		},
 		rec: rec,
 	}
+}
+
+// SetLoadHooks installs callbacks that run inside scan's call of loader.load (with the keys scan decided to load,
+// possibly none), before resp. after the real load. Either may be nil.
+func (s *VerifScanner) SetLoadHooks(before, after func(keys []string)) {
+	s.rec.beforeLoad, s.rec.afterLoad = before, after
 }
 
 // Scan runs the real DirectoryWatcher.scan once and returns the loader calls it made, in order.
